@@ -20,7 +20,7 @@ ASSUMPTIONS = common.ASSUMPTIONS + [
 ]
 UNCOVERED = [
     'binary packet layer: the compose direction is covered (packet units: payload an arbitrary byte string); the round trip of whole SSH records (parse of the message variants incl. KEXINIT) exceeds the exploration budget',
-    'KEXINIT as a whole, DH (group) exchange REPLY messages (host key inside), DISCONNECT (utf-8 text), banner grammar (text layer), OpenSSH certificates and X.509 chains: K6 not stated (K3 of the certificate classes is in the thorough tier of C01)',
+    'KEXINIT is covered at the message level only (field order and framing with the name-lists used through their class contracts; K5 re-serialisation); DH (group) exchange REPLY messages (host key inside), DISCONNECT (utf-8 text), banner grammar (text layer), OpenSSH certificates and X.509 chains: K6 not stated (K3 of the certificate classes is in the thorough tier of C01)',
     'the parse direction of the host key blobs (external PublicKey objects)',
 ]
 BOUNDED = ['name-lists with at most 1 name in the symbolic vector objects (the names themselves are unbounded text)']
@@ -254,6 +254,9 @@ def units(tier, seed):
     from cryptoparser.ssh import record as SR
     for cls in (SR.SshRecordInit, SR.SshRecordKexDH, SR.SshRecordKexDHGroup):
         out.append(packet_unit(cls))
+    from checks import kexinit
+    out.append(kexinit.k6_unit())
+    out.append(kexinit.k5_unit())
     from checks import tables as _tables
     _table_units = _tables.units(_tables.SSH)
     return out + foundation.units(tier, seed) + _table_units
